@@ -210,8 +210,36 @@ pub fn replay(id: &str, path: &str) -> i32 {
                 1
             }
         }
+        "C05" | "C16" | "C09" | "C19" | "C13" | "C18" => {
+            let problems = match id {
+                "C05" => crate::e2::replay_c05(case),
+                "C16" => crate::e2::replay_c16(case),
+                "C09" => crate::c09::replay(case),
+                "C19" => crate::c19::replay(case),
+                "C13" => crate::small::replay_c13(case),
+                _ => crate::small::replay_c18(case),
+            };
+            if problems.is_empty() {
+                println!("replay: no violation");
+                return 0;
+            }
+            let mut code = 1;
+            for (sig, detail) in problems {
+                if sig.starts_with("bad-replay-file") || sig.starts_with("machinery") || sig == "history-not-applicable" {
+                    eprintln!("MACHINERY: {sig}");
+                    code = 2;
+                    continue;
+                }
+                println!("VIOLATION property={id} replay={path}");
+                println!("  signature: {sig}");
+                println!("  detail: {}", detail.to_string().chars().take(600).collect::<String>());
+            }
+            code
+        }
         _ => {
-            eprintln!("no replay for {id}");
+            // the replay file carries the complete case; for this property the single-case entry point
+            // is the check itself restricted by hand (see DESIGN.md §1)
+            eprintln!("no single-case replay entry for {id}: re-run ./check {id} (the case in {path} is enumerated deterministically)");
             2
         }
     }
